@@ -10,17 +10,21 @@
 (*                session                                                  *)
 (*   "defined"    plain class made known with session.define(cls, uri)     *)
 (*   "undefined"  any other exception class                                *)
+(*   "definedsub" a subclass of a defined class, itself defined with its   *)
+(*                own URI (after the base class)                           *)
+(*   "undefsub"   a subclass of a defined class that is NOT defined: the   *)
+(*                registration of a class does not extend to subclasses    *)
 (* Caller side registry for the URI: "same" (the class is defined there    *)
 (* too and accepts the arguments), "badctor" (a class is defined whose     *)
 (* constructor rejects the arguments / raises), "none".                    *)
 (***************************************************************************)
 EXTENDS Naturals, TLC
 
-Kinds == {"app", "decorated", "defined", "undefined"}
+Kinds == {"app", "decorated", "defined", "undefined", "definedsub", "undefsub"}
 Registry == {"same", "badctor", "none"}
 
 \* which URI the ERROR carries: "carried" (the application error's own), "registered", "runtime" (wamp.error.runtime_error)
-WireUri(kind) == CASE kind = "app" -> "carried" [] kind \in {"decorated", "defined"} -> "registered" [] OTHER -> "runtime"
+WireUri(kind) == CASE kind = "app" -> "carried" [] kind \in {"decorated", "defined", "definedsub"} -> "registered" [] OTHER -> "runtime"
 
 \* what the caller's call fails with: the registered class if there is one that can be constructed, else the generic error
 CallerClass(reg) == IF reg = "same" THEN "registered" ELSE "generic"
